@@ -165,7 +165,65 @@ def do_loop(req):
         Theory.translate = orig
 
 
-HANDLERS = {'solve': do_solve, 'transform': do_transform, 'loop': do_loop}
+def term_sexpr(t, leaves):
+    """clingo.ast theory term (after TheoryParser.parse) -> S-expression with leaves numbered by first occurrence order in `leaves`"""
+    from clingo import ast as _ast
+    if t.ast_type == _ast.ASTType.TheoryFunction and t.name in OPNAMES and len(t.arguments) in (1, 2):
+        return '(' + t.name + ' ' + ' '.join(term_sexpr(a, leaves) for a in t.arguments) + ')'
+    return str(leaves[str(t)])
+
+
+OPNAMES = set()
+
+
+def do_pyparse(req):
+    """TheoryParser.parse (transformers/head.py) on the unparsed terms of `&tel { t1 ; t2 ; ... }.`"""
+    from clingo import ast as _ast
+    import telingo.transformers.head as th
+    OPNAMES.clear()
+    OPNAMES.update(o for o, _ in th.TheoryParser.table)
+    out = []
+    holder = []
+    _ast.parse_string('&tel { %s }.' % ' ; '.join(req['terms']), lambda s: holder.append(s))
+    rule = [s for s in holder if s.ast_type == _ast.ASTType.Rule][0]
+    leaves = {l: i for i, l in enumerate(req['leaves'])}
+    for e in rule.head.elements:
+        try:
+            out.append(term_sexpr(th.parse_raw_formula(e.terms[0]), leaves))
+        except RuntimeError as ex:
+            out.append('error ' + str(ex).split(':')[0])
+        except Exception as ex:  # noqa
+            out.append('internal ' + type(ex).__name__)
+    return {'status': 'ok', 'trees': out}
+
+
+def tterm_sexpr(t, leaves, ops):
+    if t.type == clingo.TheoryTermType.Function and t.name in ops and len(t.arguments) in (1, 2):
+        return '(' + t.name + ' ' + ' '.join(tterm_sexpr(a, leaves, ops) for a in t.arguments) + ')'
+    return str(leaves[str(t)])
+
+
+def do_gparse(req):
+    """gringo's parse of body / del theory terms with the #theory definitions telingo hands to the grounder"""
+    theory = req['theory']
+    text = '#program always.\n:- not &%s { %s }.\n' % (theory, ' ; '.join(req['terms']))
+    prg = clingo.Control(['0'], message_limit=0)
+    try:
+        with ProgramBuilder(prg) as bld:
+            fs, parts = tf.transform([text], bld.add)
+        prg.ground([('always', [clingo.Number(0), clingo.Number(0)])])
+    except Exception as e:  # noqa
+        return exc_info(e)
+    leaves = {l: i for i, l in enumerate(req['leaves'])}
+    ops = set(req['ops'])
+    out = {}
+    for atom in prg.theory_atoms:
+        for el in atom.elements:
+            out[str(el.terms[0])] = tterm_sexpr(el.terms[0], leaves, ops)
+    return {'status': 'ok', 'trees': out}
+
+
+HANDLERS = {'solve': do_solve, 'transform': do_transform, 'loop': do_loop, 'pyparse': do_pyparse, 'gparse': do_gparse}
 
 
 def main():
